@@ -250,7 +250,7 @@ class DcmMetaExtension(Nifti1Extension):
             `classification`.
         '''
         if not classification in self.get_valid_classes():
-            raise ValueError("Invalid classification: %s" % classification)
+            raise ValueError("Invalid classification: %s" % (classification,))
 
         base, sub = classification
         shape = self.shape
